@@ -54,6 +54,7 @@ func baseOptions(env *core.Env, i int, r *rand.Rand) sim.Options {
 		Horizon:     3 * time.Hour,
 		StepBudget:  150000,
 		StoreYield:  r.Intn(2) == 0,
+		Relist:      r.Intn(3) == 0,
 	}
 }
 
@@ -133,7 +134,7 @@ func collect(spec *simSpec, env *core.Env, i int, sc simCase, w *sim.World, wl *
 	for k, v := range w.Mon.Evals {
 		res.Count("mon_"+k, v)
 	}
-	for _, k := range []string{"crashes", "quiescent_points", "step_resume", "step_deliver", "clock_advances"} {
+	for _, k := range []string{"crashes", "quiescent_points", "step_resume", "step_deliver", "clock_advances", "step_relist", "relist_tombstones"} {
 		res.Count(k, w.Stat[k])
 	}
 	res.Count("mode_"+sc.Opt.Mode, 1)
@@ -260,7 +261,7 @@ func init() {
 		EvalKeys: []string{"C08"},
 		Build: func(env *core.Env, i int, r *rand.Rand) simCase {
 			o := baseOptions(env, i, r)
-			o.Kubelet = sim.KubeletOptions{FailRate: 55, NeverSched: 15, LateDie: 5, Flap: 6, Vanish: 8, ExitOnDelete: 3, SlowStart: 4}
+			o.Kubelet = sim.KubeletOptions{FailRate: 55, NeverSched: 15, LateDie: 5, Flap: 6, Vanish: 8, ExitOnDelete: 3, SlowStart: 4, Sidecar: 5}
 			o.JobCfg = jobCfg(3600, 900, 900)
 			if i%4 == 3 {
 				o.Faults = &sim.RandomFaults{Pct: 6, Kinds: []sim.FaultKind{sim.F500Before, sim.F409Before}, R: rand.New(rand.NewSource(o.Seed ^ 0xf8)), Until: 300, ReadPct: 25}
@@ -277,7 +278,7 @@ func init() {
 		EvalKeys: []string{"C10", "C10_fix"},
 		Build: func(env *core.Env, i int, r *rand.Rand) simCase {
 			o := baseOptions(env, i, r)
-			o.Kubelet = sim.KubeletOptions{FailRate: 30 + r.Intn(50), NeverSched: 12, LateDie: 6, Flap: 8, Vanish: 8, ExitOnDelete: 3, SlowStart: 4}
+			o.Kubelet = sim.KubeletOptions{FailRate: 30 + r.Intn(50), NeverSched: 12, LateDie: 6, Flap: 8, Vanish: 8, ExitOnDelete: 3, SlowStart: 4, Sidecar: 5}
 			if i%4 == 3 {
 				o.Faults = &sim.RandomFaults{Pct: 6, Kinds: []sim.FaultKind{sim.F500Before, sim.F409Before}, R: rand.New(rand.NewSource(o.Seed ^ 0xfa1)), Until: 300, ReadPct: 25}
 			}
@@ -294,7 +295,7 @@ func init() {
 		EvalKeys: []string{"C11", "C11_coherence"},
 		Build: func(env *core.Env, i int, r *rand.Rand) simCase {
 			o := baseOptions(env, i, r)
-			o.Kubelet = sim.KubeletOptions{FailRate: 45, NeverSched: 15, LateDie: 5, NeverDie: 10, Flap: 3, Vanish: 6, ExitOnDelete: 3, SlowStart: 6}
+			o.Kubelet = sim.KubeletOptions{FailRate: 45, NeverSched: 15, LateDie: 5, NeverDie: 10, Flap: 3, Vanish: 6, ExitOnDelete: 3, SlowStart: 6, Sidecar: 5}
 			o.JobCfg = jobCfg(3600, 900, 40)
 			if i%4 == 2 {
 				o.Faults = &sim.RandomFaults{Pct: 10, Kinds: []sim.FaultKind{sim.F500Before, sim.F409Before, sim.FCrashBefore}, R: rand.New(rand.NewSource(o.Seed ^ 0xfc)), Until: 300, Crashes: 1, ReadPct: 20}
@@ -314,7 +315,7 @@ func init() {
 		EvalKeys: []string{"C12"},
 		Build: func(env *core.Env, i int, r *rand.Rand) simCase {
 			o := baseOptions(env, i, r)
-			o.Kubelet = sim.KubeletOptions{FailRate: 35, NeverSched: 4, LateDie: 4, NeverDie: 4, Flap: 8, ExitOnDelete: 3, MaxRun: 40, SlowStart: 4}
+			o.Kubelet = sim.KubeletOptions{FailRate: 35, NeverSched: 4, LateDie: 4, NeverDie: 4, Flap: 8, ExitOnDelete: 3, MaxRun: 40, SlowStart: 4, Sidecar: 5}
 			o.JobCfg = jobCfg(3600, []int64{0, 15, 900}[r.Intn(3)], []int64{0, 20, 60}[r.Intn(3)])
 			return simCase{Opt: o, Prof: sim.Profile{MaxJobConfigs: 1, MinJobs: 1, MaxJobs: 4, OwnedBias: 30, Policies: []execution.ConcurrencyPolicy{execution.ConcurrencyPolicyAllow}, Parallel: 45,
 				MaxAttempts: 3, MaxRetryDelay: 15, KillPct: 65, FutureKill: 50, ClearKillPct: 35, DeletePct: 8, StartAfterPct: 15, PendingTimeout: []int64{-1, -1, 0, 6, 20}, ForbidForce: 30, TTL: []int64{600}}}
